@@ -476,8 +476,14 @@ func (b *listBox[T]) CheckState() *Viol {
 			if !b.a.contains(argSlice(rep)...) {
 				return viol(tag("C03"), "mismatch", "Contains(%v...) = false although every argument is in %v", rep, b.ref)
 			}
+			absent := true // the designated absent value may have been loaded from JSON
+			for _, x := range b.ref {
+				if x == b.sys.Absent {
+					absent = false
+				}
+			}
 			rep[k/2] = b.sys.Absent
-			if b.a.contains(argSlice(rep)...) {
+			if absent && b.a.contains(argSlice(rep)...) {
 				return viol(tag("C03"), "mismatch", "Contains(%v...) = true although %v is absent from %v", rep, b.sys.Absent, b.ref)
 			}
 		}
